@@ -179,7 +179,7 @@ func init() {
 		Assumptions:   []string{"Douglas-Peucker bound checked with float point-segment distances within a relative 1e-9"},
 		Subs: []h.Sub{
 			{
-				Name: "lines-and-rings", Count: h.Fixed(20000, 1500000),
+				Name: "lines-and-rings", Count: h.Fixed(20000, 5000000),
 				Run: func(c *h.Ctx, idx uint64, r *h.Rand) {
 					in := c12genLine(r)
 					c.Note([]byte(sv(in)))
@@ -376,7 +376,7 @@ func init() {
 				},
 			},
 			{
-				Name: "wrappers", Count: h.Fixed(6000, 300000),
+				Name: "wrappers", Count: h.Fixed(6000, 1500000),
 				Run: func(c *h.Ctx, idx uint64, r *h.Rand) {
 					// polygons whose rings may collapse, multi-polygons, collections, layers
 					mkRing := func() orb.Ring {
